@@ -109,8 +109,11 @@ def run(ctx):
     locks_held = iba.calls(r"state::Lock::wait_lock|state::Lock::try_lock")
     destructive = unl + creates
     if destructive:
-        guarded = bool(locks_held) and all(any(iba.dominates(l, x) for l in locks_held) for x in destructive)
         cond = [sw for (sw, t_t, f_t, cbb) in exs if any(iba.path([sw], [x], incl=True) for x in destructive)]
+        cond_calls = [cbb for (sw, t_t, f_t, cbb) in exs if any(iba.path([sw], [x], incl=True) for x in destructive)]
+        # switches on a bool local computed earlier (`let must_create = !dbfile.exists();`): the exists() call itself
+        ex_calls = [i for i in iba.calls(r"std::path::Path::exists") if any(iba.path([i], [x]) for x in destructive)]
+        guarded = bool(locks_held) and all(any(iba.dominates(l, x) for l in locks_held) for x in destructive + ex_calls + cond_calls)
         # also accept: the existence test result flows from a point dominated by a lock
         ok = guarded or not cond
         ctx.ob("R16.4", "init|db-creation-under-lock", ok, where=ctx.where(init, destructive[0]),
